@@ -49,8 +49,13 @@ def read_all(cid, source, mode="yield", validate_until=None):
     """Items produced and the exception that ended the iteration (or None)."""
     items = []
     ended = None
+    undo = []
     try:
         for item in cutplace.rows(cid, source, on_error=mode, validate_until=validate_until):
+            if isinstance(item, Exception):
+                # an error that was handed over belongs to the caller, its locations included: it moves them (as one
+                # does to account for lines cut off in front of the data), which must not show in any later error
+                undo.extend(_scribble_on_locations(item))
             if isinstance(item, list):
                 # a delivered row belongs to the caller: it keeps a copy here and then scribbles over the original,
                 # which must not show in any row delivered later
@@ -60,7 +65,21 @@ def read_all(cid, source, mode="yield", validate_until=None):
                 items.append(item)
     except Exception as error:  # noqa: the caller judges the type
         ended = error
+    for error, attribute, saved in undo:
+        setattr(error, attribute, saved)  # what the harness itself looks at later is what was delivered
     return items, ended
+
+
+def _scribble_on_locations(error):
+    import copy
+
+    result = []
+    for attribute in ("_location", "_see_also_location"):
+        location = getattr(error, attribute, None)
+        if location is not None and hasattr(location, "advance_line"):
+            result.append((error, attribute, copy.copy(location)))
+            location.advance_line(1000)
+    return result
 
 
 def _show(error):
